@@ -128,6 +128,16 @@ Definition observed_mode (o_saved : option session) (m : mode) : mode :=
   | SkipAuth => SkipAuth
   end.
 
+(* clause F, on observations and inputs only: a session the proxy re-saves (and, by clauses A/B,
+   asserts) on an authenticated request is one somebody vouched for — the session the cookie presented
+   (sealed by the proxy earlier) or the one the authenticator's answers of this very exchange yield
+   (fresh groups filtered by the allowed groups, rotated token). Never anything else, e.g. an emptied one. *)
+Definition saved_legit (allowed : list str) (d : due) (m : mode) (o_saved : option session) : bool :=
+  match m, o_saved with
+  | Authenticated s, Some s' => session_eqb s' s || session_eqb s' (fresh_session allowed s d)
+  | _, _ => true
+  end.
+
 Definition judge (c : case) : N :=
   match c with
   | CaseNoUpstream _ fwd => if fwd then 3 else 0
@@ -142,14 +152,16 @@ Definition judge (c : case) : N :=
               (* the model of net/http's cookie parser against the backend's real parser *)
               pairs_eqb (map name_value (read_cookies ol)) oc) in
       let v := monitor cfg r (observed_mode o_saved m) client ou oe og ot ol oc in
-      code mismatch (negb (v_fail v)) (if v_unexplained v then 0 else v_known v)
+      let okF := saved_legit allowed d m o_saved in
+      code mismatch (negb (v_fail v) && okF) (if v_unexplained v || negb okF then 0 else v_known v)
   end.
 
 (* classes for the evidence histogram: 1 / 2 = plain authenticated / skip-auth request (trivial);
    bits: 4 client sent an identity header, 8 client's Connection names an identity header or Cookie,
    16 a foreign cookie is present, 32 the session cookie occurs zero or several times,
    64 injected request headers configured, 128 access-token option on,
-   256 refresh due, 512 revalidation due, 768 grace fallback, 1024 route /favicon.ico;
+   256 refresh due, 512 revalidation due, 768 grace fallback, 1024 route /favicon.ico,
+   2048 joined another request's coalesced refresh / revalidation;
    3 = a route that never reaches the upstream (trivial) *)
 Definition classify (c : case) : N :=
   match c with
@@ -166,6 +178,7 @@ Definition classify (c : case) : N :=
       (if Nat.eqb nsess 1 then 0 else 32) +
       (if is_nil (inject cfg) then 0 else 64) +
       (if pass_access_token cfg then 128 else 0) +
-      (match d with NotDue => 0 | RefreshDue _ _ => 256 | ValidateDue _ => 512 | GraceFallback => 768 end) +
+      (match d with NotDue => 0 | RefreshDue _ _ => 256 | ValidateDue _ => 512 | GraceFallback => 768
+                  | JoinedRefresh _ _ | JoinedValidate _ => 2048 end) +
       (match r with RProxy => 0 | RFavicon _ => 1024 end)
   end.
